@@ -572,6 +572,12 @@ def __Solver_2(simu: "_Simu", problemType: "ProblemType"):
 
     dofs_Dirichlet = simu.Bc_dofs_Dirichlet(problemType)
     values_Dirichlet = simu.Bc_values_Dirichlet(problemType)
+    # one multiplier per constrained dof: a dof entered several times holds the sum of
+    # its values (as with the elimination solver) instead of two identical border rows
+    dofs_Dirichlet, inverse = np.unique(dofs_Dirichlet, return_inverse=True)
+    values_Dirichlet = np.bincount(
+        inverse, weights=values_Dirichlet, minlength=dofs_Dirichlet.size
+    )
 
     list_Bc_Lagrange = simu.Bc_Lagrange
 
